@@ -1,3 +1,5 @@
+mod asm;
+mod dump;
 mod orch;
 mod proc;
 mod readers;
